@@ -1172,6 +1172,10 @@ impl<'a, 'b> Iterator for FindTextIter<'a, 'b> {
                     let beginbytepos = resource
                         .subslice_utf8_offset(text)
                         .expect("bytepos must be valid");
+                    if self.fragment.is_empty() {
+                        //an empty fragment matches nowhere (it would match at the same position forever)
+                        return None;
+                    }
                     if let Some(foundbytepos) = text.find(self.fragment) {
                         let endbytepos = foundbytepos + self.fragment.len();
                         let newbegin = resource
@@ -1232,6 +1236,10 @@ impl<'a> Iterator for FindNoCaseTextIter<'a> {
                         .subslice_utf8_offset(text)
                         .expect("bytepos must be valid");
                     let text = text.to_lowercase();
+                    if self.fragment.is_empty() {
+                        //an empty fragment matches nowhere (it would match at the same position forever)
+                        return None;
+                    }
                     if let Some(foundbytepos) = text.find(self.fragment.as_str()) {
                         let endbytepos = foundbytepos + self.fragment.len(); //MAYBE TODO: possible issue if uppercase and lowercase variants have different byte length!
                         let newbegin = resource
